@@ -25,168 +25,167 @@ let geom_has kv k = List.mem_assoc k kv
 let geom_bool s = (s = "1")
 let geom_pb b = if b then "1" else "0"
 
-let geom_parse_gdata kv : gdata option =
+let geom_parse_gdata kv =
   if not (geom_has kv "gk") then None else
   let g = geom_get kv in
-  Some { gd_kind = (match g "gk" with "tri" -> GKTriShape | "strips" -> GKTriStrips | "lines" -> GKLines | _ -> GKBase);
-         gd_nv = geom_n (g "gnv"); gd_verts = geom_nl ',' (g "gV"); gd_norms = geom_nl ',' (g "gN");
-         gd_tans = geom_nl ',' (g "gT"); gd_bitans = geom_nl ',' (g "gB"); gd_colors = geom_nl ',' (g "gC");
-         gd_uvsets = List.map (geom_inner '.') (geom_split ';' (g "gUV"));
-         gd_nt = geom_n (g "gnt"); gd_ntp = geom_n (g "gntp");
-         gd_tris = List.map (geom_tri '.') (geom_split ';' (g "gTR"));
-         gd_slens = geom_nl ',' (g "gSL");
-         gd_points = List.map (geom_inner '.') (geom_split ';' (g "gSP"));
-         gd_lflags = geom_nl ',' (g "gLF") }
+  let kc = (match g "gk" with "tri" -> 0 | "strips" -> 1 | "lines" -> 2 | _ -> 3) in
+  Some (geom_mkGdata (geom_gkind_of (n_of_int kc)) (geom_n (g "gnv")) (geom_nl ',' (g "gV")) (geom_nl ',' (g "gN"))
+          (geom_nl ',' (g "gT")) (geom_nl ',' (g "gB")) (geom_nl ',' (g "gC"))
+          (List.map (geom_inner '.') (geom_split ';' (g "gUV")))
+          (geom_n (g "gnt")) (geom_n (g "gntp"))
+          (List.map (geom_tri '.') (geom_split ';' (g "gTR")))
+          (geom_nl ',' (g "gSL"))
+          (List.map (geom_inner '.') (geom_split ';' (g "gSP")))
+          (geom_nl ',' (g "gLF")))
 
-let geom_print_gdata (g : gdata) : string =
-  let k = (match g.gd_kind with GKTriShape -> "tri" | GKTriStrips -> "strips" | GKLines -> "lines" | GKBase -> "base") in
-  " gk=" ^ k ^ " gnv=" ^ geom_sn g.gd_nv ^ " gV=" ^ str_nlist g.gd_verts ^ " gN=" ^ str_nlist g.gd_norms
-  ^ " gT=" ^ str_nlist g.gd_tans ^ " gB=" ^ str_nlist g.gd_bitans ^ " gC=" ^ str_nlist g.gd_colors
-  ^ " gUV=" ^ String.concat ";" (List.map (geom_pr_inner ".") g.gd_uvsets)
-  ^ " gnt=" ^ geom_sn g.gd_nt ^ " gntp=" ^ geom_sn g.gd_ntp
-  ^ " gTR=" ^ String.concat ";" (List.map (geom_pr_tri ".") g.gd_tris)
-  ^ " gSL=" ^ str_nlist g.gd_slens
-  ^ " gSP=" ^ String.concat ";" (List.map (geom_pr_inner ".") g.gd_points)
-  ^ " gLF=" ^ str_nlist g.gd_lflags
+let geom_print_gdata g : string =
+  let k = (match int_of_n (geom_gkind_code (geom_gd_kind g)) with 0 -> "tri" | 1 -> "strips" | 2 -> "lines" | _ -> "base") in
+  " gk=" ^ k ^ " gnv=" ^ geom_sn (geom_gd_nv g) ^ " gV=" ^ str_nlist (geom_gd_verts g) ^ " gN=" ^ str_nlist (geom_gd_norms g)
+  ^ " gT=" ^ str_nlist (geom_gd_tans g) ^ " gB=" ^ str_nlist (geom_gd_bitans g) ^ " gC=" ^ str_nlist (geom_gd_colors g)
+  ^ " gUV=" ^ String.concat ";" (List.map (geom_pr_inner ".") (geom_gd_uvsets g))
+  ^ " gnt=" ^ geom_sn (geom_gd_nt g) ^ " gntp=" ^ geom_sn (geom_gd_ntp g)
+  ^ " gTR=" ^ String.concat ";" (List.map (geom_pr_tri ".") (geom_gd_tris g))
+  ^ " gSL=" ^ str_nlist (geom_gd_slens g)
+  ^ " gSP=" ^ String.concat ";" (List.map (geom_pr_inner ".") (geom_gd_points g))
+  ^ " gLF=" ^ str_nlist (geom_gd_lflags g)
 
 let geom_pair sep s = match geom_split sep s with
   | [a; b] -> (geom_n a, geom_n b)
   | _ -> failwith ("pair " ^ s)
 
-let geom_parse_bs kv : bsshape option =
+let geom_parse_bs kv =
   if not (geom_has kv "bk") then None else
   let g = geom_get kv in
   let lod = geom_nl ',' (g "blod") in
   let segs = List.map (fun s ->
     match geom_split ':' s with
     | [st; nu; ns; subs] ->
-      { sg_start = geom_n st; sg_num = geom_n nu; sg_nsub = geom_n ns;
-        sg_subs = (if subs = "-" then [] else
-          List.map (fun x -> let (a, b) = geom_pair '.' x in { ss_start = a; ss_num = b }) (geom_split '+' subs)) }
+      geom_mkSeg (geom_n st) (geom_n nu) (geom_n ns)
+        (if subs = "-" then [] else
+          List.map (fun x -> let (a, b) = geom_pair '.' x in geom_mkSubseg a b) (geom_split '+' subs))
     | _ -> failwith ("seg " ^ s)) (geom_split ';' (g "sSG")) in
-  let recs = List.map (fun x -> let (a, b) = geom_pair '.' x in { sr_slot = a; sr_data = b }) (geom_split ';' (g "sRC")) in
-  let sn = { sn_nprim = geom_n (g "snp"); sn_nseg = geom_n (g "sns"); sn_ntotal = geom_n (g "snt"); sn_segs = segs;
-             sn_sub_nseg = geom_n (g "ssn"); sn_sub_ntotal = geom_n (g "sst"); sn_arrayidx = geom_nl ',' (g "sAI");
-             sn_recs = recs; sn_ssf = geom_n (g "sssf") } in
-  Some { bs_kind = (match g "bk" with "dyn" -> BSDynamic | "lod" -> BSMeshLOD | "sits" -> BSSubIndex | _ -> BSPlain);
-         bs_nv = geom_n (g "bnv"); bs_vdata = geom_nl ',' (g "bVD"); bs_nt = geom_n (g "bnt");
-         bs_tris = List.map (geom_tri '.') (geom_split ';' (g "bTR")); bs_deleted = geom_nl ',' (g "bDT");
-         bs_dyn = geom_nl ',' (g "bDD"); bs_dynsize = geom_n (g "bdds");
-         bs_lod0 = List.nth lod 0; bs_lod1 = List.nth lod 1; bs_lod2 = List.nth lod 2;
-         bs_segn = sn; bs_ssen = geom_n (g "ssen");
-         bs_sse = List.map (fun x -> let (a, b) = geom_pair '.' x in { sd_index = a; sd_num = b }) (geom_split ';' (g "sSSE")) }
+  let recs = List.map (fun x -> let (a, b) = geom_pair '.' x in geom_mkSegrec a b) (geom_split ';' (g "sRC")) in
+  let sn = geom_mkSegmentation (geom_n (g "snp")) (geom_n (g "sns")) (geom_n (g "snt")) segs
+             (geom_n (g "ssn")) (geom_n (g "sst")) (geom_nl ',' (g "sAI")) recs (geom_n (g "sssf")) in
+  let kc = (match g "bk" with "dyn" -> 1 | "lod" -> 2 | "sits" -> 3 | _ -> 0) in
+  Some (geom_mkBs (geom_bskind_of (n_of_int kc)) (geom_n (g "bnv")) (geom_nl ',' (g "bVD")) (geom_n (g "bnt"))
+          (List.map (geom_tri '.') (geom_split ';' (g "bTR"))) (geom_nl ',' (g "bDT"))
+          (geom_nl ',' (g "bDD")) (geom_n (g "bdds"))
+          (List.nth lod 0) (List.nth lod 1) (List.nth lod 2)
+          sn (geom_n (g "ssen"))
+          (List.map (fun x -> let (a, b) = geom_pair '.' x in geom_mkSsegd a b) (geom_split ';' (g "sSSE"))))
 
-let geom_print_bs (b : bsshape) : string =
-  let k = (match b.bs_kind with BSDynamic -> "dyn" | BSMeshLOD -> "lod" | BSSubIndex -> "sits" | BSPlain -> "plain") in
-  let sn = b.bs_segn in
-  " bk=" ^ k ^ " bnv=" ^ geom_sn b.bs_nv ^ " bVD=" ^ str_nlist b.bs_vdata ^ " bnt=" ^ geom_sn b.bs_nt
-  ^ " bTR=" ^ String.concat ";" (List.map (geom_pr_tri ".") b.bs_tris) ^ " bDT=" ^ str_nlist b.bs_deleted
-  ^ " bDD=" ^ str_nlist b.bs_dyn ^ " bdds=" ^ geom_sn b.bs_dynsize
-  ^ " blod=" ^ geom_sn b.bs_lod0 ^ "," ^ geom_sn b.bs_lod1 ^ "," ^ geom_sn b.bs_lod2
-  ^ (match b.bs_kind with
-     | BSSubIndex ->
-       " snp=" ^ geom_sn sn.sn_nprim ^ " sns=" ^ geom_sn sn.sn_nseg ^ " snt=" ^ geom_sn sn.sn_ntotal
+let geom_print_bs b : string =
+  let kcode = int_of_n (geom_bskind_code (geom_bs_kind b)) in
+  let k = (match kcode with 1 -> "dyn" | 2 -> "lod" | 3 -> "sits" | _ -> "plain") in
+  let sn = (geom_bs_segn b) in
+  " bk=" ^ k ^ " bnv=" ^ geom_sn (geom_bs_nv b) ^ " bVD=" ^ str_nlist (geom_bs_vdata b) ^ " bnt=" ^ geom_sn (geom_bs_nt b)
+  ^ " bTR=" ^ String.concat ";" (List.map (geom_pr_tri ".") (geom_bs_tris b)) ^ " bDT=" ^ str_nlist (geom_bs_deleted b)
+  ^ " bDD=" ^ str_nlist (geom_bs_dyn b) ^ " bdds=" ^ geom_sn (geom_bs_dynsize b)
+  ^ " blod=" ^ geom_sn (geom_bs_lod0 b) ^ "," ^ geom_sn (geom_bs_lod1 b) ^ "," ^ geom_sn (geom_bs_lod2 b)
+  ^ (match kcode with
+     | 3 ->
+       " snp=" ^ geom_sn (geom_sn_nprim sn) ^ " sns=" ^ geom_sn (geom_sn_nseg sn) ^ " snt=" ^ geom_sn (geom_sn_ntotal sn)
        ^ " sSG=" ^ String.concat ";" (List.map (fun s ->
-           geom_sn s.sg_start ^ ":" ^ geom_sn s.sg_num ^ ":" ^ geom_sn s.sg_nsub ^ ":"
-           ^ (if s.sg_subs = [] then "-" else
-                String.concat "+" (List.map (fun ss -> geom_sn ss.ss_start ^ "." ^ geom_sn ss.ss_num) s.sg_subs))) sn.sn_segs)
-       ^ " ssn=" ^ geom_sn sn.sn_sub_nseg ^ " sst=" ^ geom_sn sn.sn_sub_ntotal ^ " sAI=" ^ str_nlist sn.sn_arrayidx
-       ^ " sRC=" ^ String.concat ";" (List.map (fun r -> geom_sn r.sr_slot ^ "." ^ geom_sn r.sr_data) sn.sn_recs)
-       ^ " sssf=" ^ geom_sn sn.sn_ssf ^ " ssen=" ^ geom_sn b.bs_ssen
-       ^ " sSSE=" ^ String.concat ";" (List.map (fun s -> geom_sn s.sd_index ^ "." ^ geom_sn s.sd_num) b.bs_sse)
+           geom_sn (geom_sg_start s) ^ ":" ^ geom_sn (geom_sg_num s) ^ ":" ^ geom_sn (geom_sg_nsub s) ^ ":"
+           ^ (if (geom_sg_subs s) = [] then "-" else
+                String.concat "+" (List.map (fun ss -> geom_sn (geom_ss_start ss) ^ "." ^ geom_sn (geom_ss_num ss)) (geom_sg_subs s)))) (geom_sn_segs sn))
+       ^ " ssn=" ^ geom_sn (geom_sn_sub_nseg sn) ^ " sst=" ^ geom_sn (geom_sn_sub_ntotal sn) ^ " sAI=" ^ str_nlist (geom_sn_arrayidx sn)
+       ^ " sRC=" ^ String.concat ";" (List.map (fun r -> geom_sn (geom_sr_slot r) ^ "." ^ geom_sn (geom_sr_data r)) (geom_sn_recs sn))
+       ^ " sssf=" ^ geom_sn (geom_sn_ssf sn) ^ " ssen=" ^ geom_sn (geom_bs_ssen b)
+       ^ " sSSE=" ^ String.concat ";" (List.map (fun s -> geom_sn (geom_sd_index s) ^ "." ^ geom_sn (geom_sd_num s)) (geom_bs_sse b))
      | _ -> " snp=0 sns=0 snt=0 sSG= ssn=0 sst=0 sAI= sRC= sssf=0 ssen=0 sSSE=")
 
 let geom_tris_pm s = if s = "-" then [] else List.map (geom_tri '/') (geom_split '+' s)
 let geom_pr_tris_pm l = if l = [] then "-" else String.concat "+" (List.map (geom_pr_tri "/") l)
 
-let geom_parse_part (s : string) : part =
+let geom_parse_part (s : string) =
   match geom_split ':' s with
   | [nv; nt; ns; hvw; hbi; hf; vm; vw; bi; sl; st; tr; tt] ->
-    { p_nv = geom_n nv; p_nt = geom_n nt; p_nstrips = geom_n ns; p_vmap = geom_inner '.' vm;
-      p_hasvw = geom_bool hvw; p_vw = geom_inner '.' vw; p_hasbi = geom_bool hbi; p_bi = geom_inner '.' bi;
-      p_slens = geom_inner '.' sl; p_hasfaces = geom_bool hf;
-      p_strips = (if st = "-" then [] else List.map (fun x -> if x = "_" then [] else geom_nl '.' x) (geom_split '+' st));
-      p_tris = geom_tris_pm tr; p_ttris = geom_tris_pm tt }
+    geom_mkPart (geom_n nv) (geom_n nt) (geom_n ns) (geom_inner '.' vm)
+      (geom_bool hvw) (geom_inner '.' vw) (geom_bool hbi) (geom_inner '.' bi)
+      (geom_inner '.' sl) (geom_bool hf)
+      (if st = "-" then [] else List.map (fun x -> if x = "_" then [] else geom_nl '.' x) (geom_split '+' st))
+      (geom_tris_pm tr) (geom_tris_pm tt)
   | _ -> failwith ("part " ^ s)
 
-let geom_print_part (p : part) : string =
-  String.concat ":" [ geom_sn p.p_nv; geom_sn p.p_nt; geom_sn p.p_nstrips; geom_pb p.p_hasvw; geom_pb p.p_hasbi;
-    geom_pb p.p_hasfaces; geom_pr_inner "." p.p_vmap; geom_pr_inner "." p.p_vw; geom_pr_inner "." p.p_bi;
-    geom_pr_inner "." p.p_slens;
-    (if p.p_strips = [] then "-" else String.concat "+" (List.map (fun s -> if s = [] then "_" else String.concat "." (List.map geom_sn s)) p.p_strips));
-    geom_pr_tris_pm p.p_tris; geom_pr_tris_pm p.p_ttris ]
+let geom_print_part p : string =
+  String.concat ":" [ geom_sn (geom_p_nv p); geom_sn (geom_p_nt p); geom_sn (geom_p_nstrips p); geom_pb (geom_p_hasvw p); geom_pb (geom_p_hasbi p);
+    geom_pb (geom_p_hasfaces p); geom_pr_inner "." (geom_p_vmap p); geom_pr_inner "." (geom_p_vw p); geom_pr_inner "." (geom_p_bi p);
+    geom_pr_inner "." (geom_p_slens p);
+    (if (geom_p_strips p) = [] then "-" else String.concat "+" (List.map (fun s -> if s = [] then "_" else String.concat "." (List.map geom_sn s)) (geom_p_strips p)));
+    geom_pr_tris_pm (geom_p_tris p); geom_pr_tris_pm (geom_p_ttris p) ]
 
-let geom_parse_skin kv : skin option =
+let geom_parse_skin kv =
   if not (geom_has kv "K") then None else
   let g = geom_get kv in
   let sd = if geom_has kv "kSD" then
       Some (List.map (fun b ->
         match geom_split ':' b with
-        | [nv; ws] -> { bn_nv = geom_n nv;
-                        bn_weights = (if ws = "-" then [] else List.map (geom_pair '.') (geom_split '+' ws)) }
+        | [nv; ws] -> geom_mkBone (geom_n nv) (if ws = "-" then [] else List.map (geom_pair '.') (geom_split '+' ws))
         | _ -> failwith ("bone " ^ b)) (geom_split ';' (g "kSD")))
     else None in
   let sp = if geom_has kv "pnp" then
-      Some { sp_np = geom_n (g "pnp"); sp_nv = geom_n (g "pnv"); sp_vdata = geom_nl ',' (g "pVD");
-             sp_parts = List.map geom_parse_part (geom_split '|' (g "pP"));
-             sp_mapped = geom_bool (g "pmap");
-             sp_triparts = List.map z_of_string (geom_split ',' (g "pTP")) }
+      Some (geom_mkSkinpart (geom_n (g "pnp")) (geom_n (g "pnv")) (geom_nl ',' (g "pVD"))
+              (List.map geom_parse_part (geom_split '|' (g "pP")))
+              (geom_bool (g "pmap"))
+              (List.map z_of_string (geom_split ',' (g "pTP"))))
     else None in
   let dm = if geom_has kv "kDM" then Some (geom_nl ',' (g "kDM")) else None in
-  Some { sk_data = sd; sk_part = sp; sk_dismember = dm }
+  Some (geom_mkSkin sd sp dm)
 
-let geom_print_skin (k : skin) : string =
+let geom_print_skin k : string =
   " K=1"
-  ^ (match k.sk_data with
+  ^ (match (geom_sk_data k) with
      | None -> ""
      | Some bones -> " kSD=" ^ String.concat ";" (List.map (fun b ->
-         geom_sn b.bn_nv ^ ":" ^ (if b.bn_weights = [] then "-" else
-           String.concat "+" (List.map (fun (i, w) -> geom_sn i ^ "." ^ geom_sn w) b.bn_weights))) bones))
-  ^ (match k.sk_part with
+         geom_sn (geom_bn_nv b) ^ ":" ^ (if (geom_bn_weights b) = [] then "-" else
+           String.concat "+" (List.map (fun (i, w) -> geom_sn i ^ "." ^ geom_sn w) (geom_bn_weights b)))) bones))
+  ^ (match (geom_sk_part k) with
      | None -> ""
-     | Some sp -> " pnp=" ^ geom_sn sp.sp_np ^ " pnv=" ^ geom_sn sp.sp_nv ^ " pVD=" ^ str_nlist sp.sp_vdata
-                  ^ " pmap=" ^ geom_pb sp.sp_mapped ^ " pTP=" ^ str_zlist sp.sp_triparts
-                  ^ " pP=" ^ String.concat "|" (List.map geom_print_part sp.sp_parts))
-  ^ (match k.sk_dismember with None -> "" | Some dm -> " kDM=" ^ str_nlist dm)
+     | Some sp -> " pnp=" ^ geom_sn (geom_sp_np sp) ^ " pnv=" ^ geom_sn (geom_sp_nv sp) ^ " pVD=" ^ str_nlist (geom_sp_vdata sp)
+                  ^ " pmap=" ^ geom_pb (geom_sp_mapped sp) ^ " pTP=" ^ str_zlist (geom_sp_triparts sp)
+                  ^ " pP=" ^ String.concat "|" (List.map geom_print_part (geom_sp_parts sp)))
+  ^ (match (geom_sk_dismember k) with None -> "" | Some dm -> " kDM=" ^ str_nlist dm)
 
-let geom_parse_shape (s : string) : shape =
+let geom_parse_shape (s : string) =
   let kv = geom_kv s in
-  { sh_gdata = geom_parse_gdata kv; sh_bs = geom_parse_bs kv; sh_skin = geom_parse_skin kv;
-    sh_locked = List.map (geom_inner '.') (geom_split ';' (geom_get kv "LN")) }
+  geom_mkShape (geom_parse_gdata kv) (geom_parse_bs kv) (geom_parse_skin kv)
+    (List.map (geom_inner '.') (geom_split ';' (geom_get kv "LN")))
 
-let geom_print_getseg (b : bsshape) : string =
-  let sn = b.bs_segn in
-  let need = List.fold_left (fun a s -> a + 1 + List.length s.sg_subs) 0 sn.sn_segs in
-  let has_subs = need > List.length sn.sn_segs in
-  if has_subs && List.length sn.sn_recs < need then " gsI=SHORTRECORDS gsL="
-  else match get_segmentation b with
+let geom_print_getseg b : string =
+  let sn = (geom_bs_segn b) in
+  let need = List.fold_left (fun a s -> a + 1 + List.length (geom_sg_subs s)) 0 (geom_sn_segs sn) in
+  let has_subs = need > List.length (geom_sn_segs sn) in
+  if has_subs && List.length (geom_sn_recs sn) < need then " gsI=SHORTRECORDS gsL="
+  else match geom_get_segmentation b with
     | Ok (inf, lbl) ->
       " gsI=" ^ String.concat ";" (List.map (fun s ->
-          str_of_z s.gi_id ^ ":" ^ (if s.gi_subs = [] then "-" else
-            String.concat "+" (List.map (fun ss -> str_of_z ss.si_id ^ "." ^ geom_sn ss.si_slot ^ "." ^ geom_sn ss.si_data) s.gi_subs)))
-          inf.inf_segs)
+          str_of_z (geom_gi_id s) ^ ":" ^ (if (geom_gi_subs s) = [] then "-" else
+            String.concat "+" (List.map (fun ss -> str_of_z (geom_si_id ss) ^ "." ^ geom_sn (geom_si_slot ss) ^ "." ^ geom_sn (geom_si_data ss)) (geom_gi_subs s))))
+          (geom_inf_segs inf))
       ^ " gsL=" ^ str_zlist lbl
     | Fault -> " gsI=FAULT gsL="
     | OutOfFuel -> " gsI=OUTOFFUEL gsL="
 
-let geom_print_shape (s : shape) : string =
+let geom_print_shape s : string =
   "S"
-  ^ (match s.sh_gdata with None -> "" | Some g -> geom_print_gdata g)
-  ^ (match s.sh_bs with None -> "" | Some b -> geom_print_bs b)
-  ^ (match s.sh_skin with None -> "" | Some k -> geom_print_skin k)
-  ^ " LN=" ^ String.concat ";" (List.map (geom_pr_inner ".") s.sh_locked)
-  ^ (match s.sh_bs with Some b when b.bs_kind = BSSubIndex -> geom_print_getseg b | _ -> "")
+  ^ (match (geom_sh_gdata s) with None -> "" | Some g -> geom_print_gdata g)
+  ^ (match (geom_sh_bs s) with None -> "" | Some b -> geom_print_bs b)
+  ^ (match (geom_sh_skin s) with None -> "" | Some k -> geom_print_skin k)
+  ^ " LN=" ^ String.concat ";" (List.map (geom_pr_inner ".") (geom_sh_locked s))
+  ^ (match (geom_sh_bs s) with Some b when int_of_n (geom_bskind_code (geom_bs_kind b)) = 3 -> geom_print_getseg b | _ -> "")
   ^ (* the public accessors: GetNumVertices / GetNumTriangles / GetTriangles *)
-  (match s.sh_gdata, s.sh_bs with
+  (match (geom_sh_gdata s), (geom_sh_bs s) with
    | Some g, _ ->
-     let tris = (match g.gd_kind with
-       | GKTriShape -> g.gd_tris
-       | GKTriStrips -> (match strips_model g.gd_points with Ok t -> t | _ -> [])
+     let tris = (match int_of_n (geom_gkind_code (geom_gd_kind g)) with
+       | 0 -> (geom_gd_tris g)
+       | 1 -> (match geom_strips_tris (geom_gd_points g) with Ok t -> t | _ -> [])
        | _ -> []) in
-     " anv=" ^ geom_sn g.gd_nv ^ " ant=" ^ (match gd_num_triangles g with Ok x -> geom_sn x | _ -> "FAULT")
+     " anv=" ^ geom_sn (geom_gd_nv g) ^ " ant=" ^ (match geom_gd_num_triangles g with Ok x -> geom_sn x | _ -> "FAULT")
      ^ " aTR=" ^ String.concat ";" (List.map (geom_pr_tri ".") tris)
    | None, Some b ->
-     " anv=" ^ geom_sn b.bs_nv ^ " ant=" ^ geom_sn b.bs_nt ^ " aTR=" ^ String.concat ";" (List.map (geom_pr_tri ".") b.bs_tris)
+     " anv=" ^ geom_sn (geom_bs_nv b) ^ " ant=" ^ geom_sn (geom_bs_nt b) ^ " aTR=" ^ String.concat ";" (List.map (geom_pr_tri ".") (geom_bs_tris b))
    | None, None -> " anv=0 ant=0 aTR=")
 
 let geom_unescape s = String.map (fun c -> if c = '~' then ' ' else c) s
@@ -194,20 +193,19 @@ let geom_unescape s = String.map (fun c -> if c = '~' then ' ' else c) s
 (* inf syntax of the case lines: seg ';' seg, seg = id ':' sub '+' sub, sub = id '.' userSlot.
    The data token of a sub-segment is what the C++ oracle derives from (material, extraData),
    handed over by the checker as dtok=<id>.<token>,... *)
-let geom_parse_inf (s : string) (dtok : (string * string) list) (ssf : n) : seginf =
-  { inf_segs = List.map (fun sg ->
+let geom_parse_inf (s : string) (dtok : (string * string) list) (ssf : n) =
+  geom_mkSeginf (List.map (fun sg ->
       match geom_split ':' sg with
       | id :: rest ->
         let subs = (match rest with [] -> [] | x :: _ -> if x = "-" then [] else geom_split '+' x) in
-        { gi_id = z_of_string id;
-          gi_subs = List.map (fun sb ->
+        geom_mkSeginfo (z_of_string id)
+          (List.map (fun sb ->
             match geom_split '.' sb with
-            | sid :: r -> { si_id = z_of_string sid;
-                            si_slot = (match r with u :: _ -> geom_n u | [] -> N0);
-                            si_data = (try geom_n (List.assoc sid dtok) with Not_found -> N0) }
-            | [] -> failwith "sub") subs }
-      | [] -> failwith "seg") (geom_split ';' s);
-    inf_ssf = ssf }
+            | sid :: r -> geom_mkSubinfo (z_of_string sid)
+                            (match r with u :: _ -> geom_n u | [] -> N0)
+                            (try geom_n (List.assoc sid dtok) with Not_found -> N0)
+            | [] -> failwith "sub") subs)
+      | [] -> failwith "seg") (geom_split ';' s)) ssf
 
 let geom_run_case (c : case) : string =
   match c.op with
@@ -221,7 +219,7 @@ let geom_run_case (c : case) : string =
     let rec go s = function
       | [] -> ()
       | idx :: rest ->
-        (match delete_verts s idx with
+        (match geom_delete_verts s idx with
          | Ok (s', ret) ->
            Buffer.add_string buf (" | ret=" ^ (if ret then "1" else "0") ^ " " ^ geom_print_shape s');
            go s' rest
@@ -236,11 +234,11 @@ let geom_run_case (c : case) : string =
         (geom_split ',' (get c "dtok")) in
     let inf = geom_parse_inf (get c "inf") dtok (geom_n (get c "ssf")) in
     let labels = List.map z_of_string (geom_split ',' (get c "labels")) in
-    (match s0.sh_bs with
+    (match (geom_sh_bs s0) with
      | None -> "M=NOBS"
      | Some b ->
-       (match set_segmentation b inf labels with
-        | Ok b' -> "M=" ^ geom_print_shape { s0 with sh_bs = Some b' }
+       (match geom_set_segmentation b inf labels with
+        | Ok b' -> "M=" ^ geom_print_shape (geom_mkShape (geom_sh_gdata s0) (Some b') (geom_sh_skin s0) (geom_sh_locked s0))
         | Fault -> "M=FAULT"
         | OutOfFuel -> "M=OUTOFFUEL"))
   | _ -> "M=?"
